@@ -77,3 +77,11 @@ class TaggedEADeme(EADeme):
     """Custom deme class registered for TaggedEAConfig: an EA deme that tags itself."""
 
     tag = "custom-ea"
+
+
+class TaggedEAConfig2(TaggedEAConfig):
+    """A second user config class, derived from the first one and registered (after it) for its own deme class."""
+
+
+class TaggedEADeme2(TaggedEADeme):
+    tag = "custom-ea-2"
